@@ -155,6 +155,8 @@ type SampleRec struct {
 	Tags  string
 	Net   int
 	Proto int
+	ID    uint64
+	Err   string
 	Goid  int64
 	At    time.Time
 }
@@ -211,6 +213,10 @@ func (a *MockAggregator) Report(s core.Sample) {
 	if ns, ok := s.(*netsample.Sample); ok {
 		rec.Tags = ns.Tags()
 		rec.Proto = ns.ProtoCode()
+		rec.ID = ns.ID()
+		if e := ns.Err(); e != nil {
+			rec.Err = e.Error()
+		}
 		f := strings.Split(strings.TrimSpace(ns.String()), "\t")
 		if len(f) >= 12 {
 			rec.Net, _ = strconv.Atoi(f[10])
@@ -228,6 +234,13 @@ func (a *MockAggregator) Report(s core.Sample) {
 	a.mu.Lock()
 	a.Samples = append(a.Samples, rec)
 	a.mu.Unlock()
+}
+
+// Snapshot returns a copy of the samples reported so far.
+func (a *MockAggregator) Snapshot() []SampleRec {
+	a.mu.Lock()
+	defer a.mu.Unlock()
+	return append([]SampleRec(nil), a.Samples...)
 }
 
 type MockSample struct {
